@@ -158,6 +158,24 @@ func chainScripts(cfg ckConfig, rng *rand.Rand, nrandom int) []ckScript {
 			// not cleared by a front-channel logout without sid, a login start or a local logout
 			add(W(false, "L", o+"/login", rep("e500", 2)), req("F", o+"/logout/frontchannel", "s"), req("L", o+"/login", "n"), req("K", o+"/logout/local", "n"),
 				W(false, "L", o+"/login", rep("e500", 8)))
+			// failure CAUSES (Model/Retry.v fcause; arranged on the real stack by ckBrowser.arrange): the chains above with every
+			// cause the endpoint admits. Login fails at the pushed authorization request, the callback at the token endpoint or
+			// when the session is written, logout / local logout when the session is looked up.
+			for _, c := range loginCauses {
+				add(W(false, "L", o+"/login", rep(c, 8)))
+			}
+			add(W(false, "L", o+"/login", []string{"e500.t", "e500", "e500.5", "e500.r", "e500.x", "e500.m", "e500.t", "e500.t"}))
+			add(W(false, "L", o+"/login", []string{"e500", "e500.x", "e500.t", "e500.t", "e500.t", "e500.t"}))
+			for _, c := range callbackCauses {
+				add(W(true, "L", o+"/login", alt("n", c, 12)))
+			}
+			add(W(true, "L", o+"/login", []string{"n", "e500.t", "e500.t", "n", "e500.st", "e500.x", "n", "e500.sc", "e500.5", "n", "e500.t", "e500.t"}))
+			for _, c := range storeCauses {
+				add(req("L", o+"/login", "n"), req("C", o+"/callback", "n"), W(false, "O", o+"/logout", rep(c, 8)))
+				add(req("L", o+"/login", "n"), req("C", o+"/callback", "n"), W(false, "K", o+"/logout/local", rep(c, 8)))
+			}
+			// the counter is cleared by a success in between, whatever made the earlier requests fail
+			add(W(false, "L", o+"/login", rep("e500.t", 2)), req("L", o+"/login", "n"), req("C", o+"/callback", "n"), W(false, "L", o+"/login", rep("e500.t", 8)))
 			for k := 0; k < nrandom; k++ {
 				n := 3 + rng.Intn(12)
 				fs := make([]string, n)
@@ -166,6 +184,48 @@ func chainScripts(cfg ckConfig, rng *rand.Rand, nrandom int) []ckScript {
 				}
 				add(chainFor("L", o, fs))
 			}
+			for k := 0; k < nrandom; k++ {
+				n := 3 + rng.Intn(12)
+				fs := make([]string, n)
+				for i := range fs {
+					fs[i] = []string{"n", "e500", "e500", "e401"}[rng.Intn(4)]
+				}
+				it := chainFor("L", o, fs)
+				it.faults = withCauses(it, rng)
+				add(it)
+			}
+		}
+	}
+	return out
+}
+
+// failure causes per endpoint (suffix of the fault token, see ckBrowser.arrange)
+var (
+	loginCauses    = []string{"e500.5", "e500.m", "e500.t", "e500.x", "e500.r"}
+	callbackCauses = []string{"e500.5", "e500.m", "e500.t", "e500.x", "e500.r", "e500.s", "e500.st", "e500.sc"}
+	storeCauses    = []string{"e500.s", "e500.st", "e500.sc"}
+)
+
+// withCauses gives every 500 of a chain built by chainFor a random cause that its endpoint admits (the endpoint sequence of
+// the chain is recomputed the way chainFor does).
+func withCauses(it ckItem, rng *rand.Rand) []string {
+	ep := it.ep
+	out := make([]string, len(it.faults))
+	for i, f := range it.faults {
+		out[i] = f
+		switch ep {
+		case "L":
+			if f == "e500" && rng.Intn(4) != 0 {
+				out[i] = loginCauses[rng.Intn(len(loginCauses))]
+			}
+			if f == "n" {
+				ep = "C"
+			}
+		case "C":
+			if f == "e500" && rng.Intn(4) != 0 {
+				out[i] = callbackCauses[rng.Intn(len(callbackCauses))]
+			}
+			ep = "L"
 		}
 	}
 	return out
